@@ -189,7 +189,7 @@ def brief(case):
         if isinstance(a, np.ndarray):
             return {'array': list(a.shape), 'first': [float(np.real(x)) for x in a.flat[:6]]} if a.size > 8 else [complex(x).real if a.dtype.kind == 'c' else float(x) for x in a.flat]
         if isinstance(a, tuple):
-            return '.'.join(a[1:])
+            return '.'.join(str(x) for x in a)
         return a
     return {'module': case['module'], 'kernel': case['kernel'], 'tag': case['tag'], 'args': [b(a) for a in case['args']]}
 
